@@ -194,7 +194,7 @@ class ScriptedRequestor(Peer):
     """Peer playing the association requestor against a real AE (acceptor)."""
 
     def __init__(self, sim, net, addr, contexts, max_length=16384, called='SRV', calling='CLI',
-                 script=None, extra_user=()):
+                 script=None, extra_user=(), app_context=rc.APP_CONTEXT):
         sock = net.socket()
         Peer.__init__(self, sim, sock, 'requestor-peer')
         self.net = net
@@ -209,6 +209,7 @@ class ScriptedRequestor(Peer):
         self.peer_max = None
         self.ended = None
         self.extra_user = extra_user
+        self.app_context = app_context
         self.connect_error = None
 
     def send_message(self, pcid, fields, data=None, max_length=None, per_pdu=1, groups=None):
@@ -248,7 +249,7 @@ class ScriptedRequestor(Peer):
             return None
         self.send(rc.enc_assoc_rq(called=self.called, calling=self.calling,
                                   contexts=self.contexts, max_length=self.max_length,
-                                  extra_user=self.extra_user))
+                                  extra_user=self.extra_user, app_context=self.app_context))
         p = self.read_pdu(timeout=60.0)
         if p is None or p == 'timeout':
             return p
